@@ -23,3 +23,8 @@ import (
 func hasLinks(info os.FileInfo) bool {
 	return false
 }
+
+// canWrite reports whether the handle was opened for writing
+func canWrite(f *os.File) bool {
+	return true
+}
